@@ -1,6 +1,44 @@
-(* C19 -- placeholder until the transparency theorem is assembled (see Proofs/RebaseProofs.v). *)
-From BM Require Import Base.Tactics Model.Layout Model.View Model.Rebase.
+(* C19 -- Index bases are transparent.  Only the property theorems, closed by `exact`, with Print Assumptions. *)
+From BM Require Import Base.Tactics Model.Layout Model.View Model.Spec Model.Iter Model.Rebase
+  Proofs.LayoutProofs Proofs.ViewProofs2 Proofs.IterProofs Proofs.ElemProofs Proofs.RebaseProofs.
 Local Open Scope Z_scope.
-Theorem C19_norm_idempotent : forall v, norm (norm v) = norm v.
-Proof. intros [l b]. unfold norm. cbn. f_equal. rewrite map_map. reflexivity. Qed.
-Print Assumptions C19_norm_idempotent.
+
+(* Any program of view operations (incl. reindexed, blocked) on a root built from explicit index
+   extensions is, operation by operation, the program twin_ops (index arguments shifted by the current
+   first valid index; reindexed dropped; blocked = sliced) on the zero-based root of the same sizes:
+   the results have the same base, sizes, strides and num_elements, the twin program consists of C01
+   operations only (so C01_view_algebra applies to it), and the element at index tuple idx of the
+   re-based result is the element at idx - firsts of the twin.  run_safe excludes exactly: slicing an
+   EMPTY dimension whose offset is not 0 (no element is designated; the base pointer moves by minus
+   the offset) and diagonal() on a view whose first two offsets are not 0 (refuted below). *)
+Theorem C19_rebase_transparent :
+  forall (exts : list range) (ops : list op) (w : view),
+    Forall (fun r => fst r <= snd r) exts ->
+    run_safe ops (root_view exts) = true ->
+    run_ops ops (root_view exts) = Some w ->
+    let sz := map r_size exts in
+    let tops := twin_ops ops (root_view exts) in
+    let w0 := norm w in
+       run_ops tops (root_view (zb sz)) = Some w0 /\ Forall c01_op tops
+    /\ l_sizes (lay w0) = l_sizes (lay w) /\ l_strides (lay w0) = l_strides (lay w)
+    /\ l_num_elements (lay w0) = l_num_elements (lay w) /\ base w0 = base w
+    /\ forall idx, in_extl (lay w) idx ->
+         v_addr w idx = v_addr w0 (vsubz idx (firsts_of w)) /\ valid_idx (l_sizes (lay w0)) (vsubz idx (firsts_of w)).
+Proof. exact C19_rebase_transparent_proved. Qed.
+Print Assumptions C19_rebase_transparent.
+
+(* iteration and elements() of re-based views: C02's theorems are stated for any index base *)
+Theorem C19_iterators_any_base :
+  forall (v : view) (d : dim) (l : layout) (f n : Z),
+    lay v = d :: l -> dim_okg d f n -> d_stride d <> 0 ->
+    (forall p, 0 <= p < n -> it_deref (it_add (it_begin v) p) = v_index (f + p) v)
+    /\ it_diff (it_end v) (it_begin v) = n.
+Proof.
+  intros v d l f n Hl Hd Hs. destruct (C02_array_iterator_laws_proved v d l f n Hl Hd Hs) as (H1 & _ & _ & _ & _ & H6 & _).
+  split; assumption.
+Qed.
+Print Assumptions C19_iterators_any_base.
+
+Theorem C19_diagonal_refuted : ~ C19_diagonal_transparent.
+Proof. exact C19_diagonal_refuted_proved. Qed.
+Print Assumptions C19_diagonal_refuted.
